@@ -12,7 +12,10 @@ ASSUMPTIONS = [
     "compositional mode: atol is a recording model (argument text checked against the reference split, arbitrary value returned)",
     "getuid()/geteuid() return independent arbitrary 32-bit values",
 ]
-UNITS = ["src/filter/only_uid.c", "src/filter/exclude_uid.c", "src/filter/only_root.c", "src/util/parser.c", "src/util/string.c"]
+# optional scaling: the pinned filters have no fixed-size scratch buffer; if a change introduces one sized by the documented
+# 1024-byte argument limit it is scaled like everywhere else (CBMC array threshold) so that its boundary falls inside the bound
+OPT = ((r"\b1024\b", "8", "optional"),)
+UNITS = [Unit("src/filter/only_uid.c", sed=OPT), Unit("src/filter/exclude_uid.c", sed=OPT), "src/filter/only_root.c", "src/util/parser.c", "src/util/string.c"]
 
 
 def queries(ctx):
